@@ -210,6 +210,15 @@ func report(o options, w *World, results []*FuncResult, missing []string, start 
 				if i := strings.Index(s, " "); i > 0 {
 					s = s[:i]
 				}
+				if ob.Expect == "sat" {
+					// vacuity guard: passes when the solver does not refute it
+					if i := strings.Index(s, "="); i > 0 {
+						s = s[:i]
+					}
+					s += " (vacuity guard: not refuted)"
+				} else if strings.Contains(ob.Solver, "kind-pruned") {
+					s += " (kind-pruned query)"
+				}
 				bySolver[s]++
 				if len(samples) < 6 && ob.Solver != "syntactic" && ob.Expect == "unsat" && (len(samples) == 0 || samples[len(samples)-1]["function"] != ob.Func) {
 					sz := 0
